@@ -1551,21 +1551,21 @@ def run(eng, rep):
     rep.explain("Also decided: definite assignment of every local read in functions reachable from solve, aware of the first-iteration idiom `if i == start:` (C07-11, frozen exceptions with their premises re-checked); the package's own parameter updates are guarded so that they cannot be second updates (truth-table entailment for flags, C07-10); type validators test the value they were given (C07-5b); the restart geometry loop stays inside its list (sibling consistency, C07-12); the asserted precondition of the coordinate initialiser is established by solve for the npt of every run (C07-13); single-parameter thresholds and option-vs-argument contradictions validated in solve (C07-3 rows).")
     rep.not_decided += ["absence of implicit exceptions raised inside NumPy/SciPy calls for every documented input",
                         "termination of the main loop (structural part: C18-5)"]
-    rule_call_conformance(eng, rep)
-    rule_names_resolve(eng, rep)
+    rep.guarded(rule_call_conformance, eng, rep)
+    rep.guarded(rule_names_resolve, eng, rep)
     ctx = rule_graceful(eng, rep)
-    rule_invalid_arg_guards(eng, rep, ctx)
-    rule_exit_registry(eng, rep)
-    rule_param_registry(eng, rep)
-    rule_unknown_key(eng, rep)
-    rule_raises(eng, rep)
-    rule_exit_info_nonnull(eng, rep)
-    rule_validators_test_the_value_itself(eng, rep)
-    rule_restart_geometry_loop_in_range(eng, rep)
-    rule_coordinate_precondition_established(eng, rep)
-    rule_shapes_validated_before_arithmetic(eng, rep)
-    rule_gap_row_in_the_coordinates_of_rhobeg(eng, rep)
-    rule_internal_param_updates(eng, rep)
-    rule_definite_assignment(eng, rep)
+    rep.guarded(rule_invalid_arg_guards, eng, rep, ctx)
+    rep.guarded(rule_exit_registry, eng, rep)
+    rep.guarded(rule_param_registry, eng, rep)
+    rep.guarded(rule_unknown_key, eng, rep)
+    rep.guarded(rule_raises, eng, rep)
+    rep.guarded(rule_exit_info_nonnull, eng, rep)
+    rep.guarded(rule_validators_test_the_value_itself, eng, rep)
+    rep.guarded(rule_restart_geometry_loop_in_range, eng, rep)
+    rep.guarded(rule_coordinate_precondition_established, eng, rep)
+    rep.guarded(rule_shapes_validated_before_arithmetic, eng, rep)
+    rep.guarded(rule_gap_row_in_the_coordinates_of_rhobeg, eng, rep)
+    rep.guarded(rule_internal_param_updates, eng, rep)
+    rep.guarded(rule_definite_assignment, eng, rep)
     from . import c20
     c20.rule_str_never_formats_none(eng, rep, rule="C07-8.printing")
